@@ -510,10 +510,10 @@ impl WritersHandle {
         #[cfg(feature = "verif_hooks")]
         crate::verif_hooks::sched("spec_enter");
         let max_level = new_spec.max_level();
-        self.spec
-            .write()
-            .map_err(|_| FlexiLoggerError::Poison)?
-            .update_from(new_spec);
+        // we keep the lock until also the max level is adapted,
+        // otherwise concurrent updates could combine the spec of one with the max level of another
+        let mut spec_guard = self.spec.write().map_err(|_| FlexiLoggerError::Poison)?;
+        spec_guard.update_from(new_spec);
         #[cfg(feature = "verif_hooks")]
         crate::verif_hooks::sched("spec_updated");
         self.reconfigure(max_level);
